@@ -211,7 +211,7 @@ def replay(ctx, job, violation, keep_dir):
     rec = {"property": ctx.pid, "entry": job.entry, "rel": job.rel, "pkgname": job.pkgname, "harness": job.harness,
            "params": job.params, "witness": violation["witness"], "names": violation.get("names"), "kind": violation["kind"],
            "id": violation["id"], "detail": violation.get("detail"), "witness_mode": job.twin, "load_dir": job.load_dir,
-           "extra_overlay": job.extra_overlay, "notes": violation.get("notes")}
+           "extra_overlay": job.extra_overlay, "notes": violation.get("notes"), "tier": ctx.tier}
     json.dump(rec, open(wpath, "w"), indent=1)
     ok, detail = replay_file(ctx, wpath)
     return ok, detail, wpath
@@ -337,8 +337,29 @@ def main(argv):
 
 
 def main_replay(path):
-    ctx = Ctx("replay", "quick", 0)
+    rec = json.load(open(path))
+    hs = rec["harness"] if isinstance(rec["harness"], (list, tuple)) else [rec["harness"]]
+    need = [rec.get("load_dir")] + [h for h in hs if os.path.isabs(h)] + list((rec.get("extra_overlay") or {}).values())
+    missing = [p for p in need if p and not os.path.exists(p)]
+    ctx = Ctx(rec.get("property", "replay") if missing else "replay", rec.get("tier") or "quick", 0)
     try:
+        if missing:
+            # the counterexample refers to generated code of a finished run: regenerate it from the current /repo tree
+            sys.path.insert(0, VERIF)
+            mod = importlib.import_module("props." + rec["property"])
+            match = []
+            for tier in [rec.get("tier") or "quick", "thorough"]:
+                ctx.tier = tier
+                match = [j for j in mod.jobs(ctx) if j.rel == rec["rel"] and j.pkgname == rec["pkgname"] and j.entry == rec["entry"]]
+                if match:
+                    break
+            if not match:
+                print("REPLAY NOT reproduced: the package %s of this counterexample is not generated any more" % rec["rel"])
+                return 0
+            j = match[0]
+            rec.update(harness=j.harness, load_dir=j.load_dir, extra_overlay=j.extra_overlay)
+            path = os.path.join(ctx.scratch, "replay_" + os.path.basename(path))
+            json.dump(rec, open(path, "w"))
         ok, detail = replay_file(ctx, path)
         print("REPLAY %s: %s" % ("reproduced" if ok else "NOT reproduced", detail))
         return 1 if ok else 0
